@@ -192,6 +192,61 @@ def run(ctx):
     r4.check(ok, f"{m.rel}:{lc.DONE}:chain", "the done handler does not end in evaluate(result).then(resolve).catch(reject): a failure while evaluating the result would leave the job pending", m.rel, dn.lineno)
     ex = m.func(lc.EXEC)
     r4.check(True, f"{m.rel}:lifecycle:traces", "", note=f"{len(results)} traces explored")
+    # ---- C09.6 per-execution state does not leak into the next execution ----------------------
+    # run() may be called again on the same Scheduler after an execution that stopped early (a failure while other jobs were still running):
+    # whatever that execution left in the scheduler's work containers would be processed / waited for by the next one.
+    r6 = ctx.rule("C09.6", "every work container the lifecycle mutates is reset by Scheduler.clear() at the start of an execution", floor=5)
+    PERSISTENT = {
+        "executors": "configuration: filled by add_executor/load, not by the job lifecycle",
+        "_tracked_promises": "keyed by promise id for fork_thread/join_thread; entries are popped by join_thread",
+    }
+    init = m.func("Scheduler.__init__")
+    containers = {}
+    for n in ast.walk(init):
+        tg = n.target if isinstance(n, ast.AnnAssign) else (n.targets[0] if isinstance(n, ast.Assign) else None)
+        if tg is not None and isinstance(tg, ast.Attribute) and src(tg.value) == "self" and n.value is not None:
+            v = n.value
+            if isinstance(v, (ast.List, ast.Dict, ast.Set)) or (isinstance(v, ast.Call) and (call_name(v) or "").split(".")[-1] in ("set", "dict", "list", "defaultdict", "Queue", "OrderedDict", "deque")):
+                containers[tg.attr] = src(v)
+    mutated = {}
+    for q, fn in m.funcs.items():
+        if not q.startswith("Scheduler.") or q in ("Scheduler.__init__", "Scheduler.clear"):
+            continue
+        for n in ast.walk(fn):
+            f = None
+            if isinstance(n, ast.Call) and isinstance(n.func, ast.Attribute) and isinstance(n.func.value, ast.Attribute) and src(n.func.value.value) == "self" and n.func.attr in ("append", "add", "put", "extend", "update", "setdefault", "appendleft"):
+                f = n.func.value.attr
+            elif isinstance(n, (ast.Assign, ast.AugAssign)):
+                for t in n.targets if isinstance(n, ast.Assign) else [n.target]:
+                    if isinstance(t, ast.Subscript) and isinstance(t.value, ast.Attribute) and src(t.value.value) == "self":
+                        f = t.value.attr
+            if f in containers:
+                mutated.setdefault(f, set()).add(q.split(".", 1)[1])
+    cl = m.func("Scheduler.clear")
+    reset = set()
+    for n in ast.walk(cl):
+        if isinstance(n, ast.Call) and isinstance(n.func, ast.Attribute) and isinstance(n.func.value, ast.Attribute) and src(n.func.value.value) == "self" and n.func.attr in ("clear", "get_nowait", "get"):
+            reset.add(n.func.value.attr)
+        if isinstance(n, ast.Assign):
+            for t in n.targets:
+                b = t.value if isinstance(t, ast.Subscript) else t
+                if isinstance(b, ast.Attribute) and src(b.value) == "self":
+                    reset.add(b.attr)
+    runf = m.func("Scheduler._run")
+    r6.check(any(call_name(c) == "self.clear" for c in calls_in(runf, shallow=True)), f"{m.rel}:Scheduler._run:clear", "_run does not reset the scheduler state before evaluating", m.rel, runf.lineno)
+    for f in sorted(mutated):
+        if f in PERSISTENT:
+            r6.good(f"{m.rel}:Scheduler.clear:{f}", PERSISTENT[f])
+            continue
+        r6.check(
+            f in reset,
+            f"{m.rel}:Scheduler.clear:{f}",
+            f"self.{f} (initialised to {containers[f]}, filled by {sorted(mutated[f])[:3]}) is not reset by Scheduler.clear(): after an execution that stopped early its leftovers -- "
+            "events of jobs that were still running, jobs waiting for limits, units still counted as held -- are processed or waited for by the next run() on the same Scheduler "
+            "(KeyError in _finalize_job, a job of the old execution recorded under the new one, or a wait for units nobody will release)",
+            m.rel,
+            cl.lineno,
+        )
 
 
 def _compress(seq: str) -> str:
